@@ -47,7 +47,7 @@ PROPS = {
     'C04': dict(suites=[('kv', [])], column='kv', relevant=rel_c04, title='Expiry',
                 # rejections owned by other properties (not about deadlines) that merely happen on keys carrying a deadline
                 ignore_foreign=True),
-    'C06': dict(suites=[('aclz', []), ('acla', [])], column='acl', relevant=lambda r: True, title='ACL authorization'),
+    'C06': dict(suites=[('aclz', []), ('acla', [])] + ALL_DATA, column='acl', relevant=lambda r: r.get('line') in ('Z', 'A') or r['f'].get('acl', 'na') != 'na', title='ACL authorization'),
     'C11': dict(suites=[('acla', [])], column='auth', relevant=lambda r: True, title='Authentication and user lifecycle'),
     'C12': dict(suites=ALL_DATA + [('acla', []), ('wire', [])], column='wire', clscol='wcls', relevant=lambda r: True, title='Wire protocol'),
     'C13': dict(suites=ALL_DATA, column='pure', clscol='pcls', relevant=lambda r: True, title='Read-only commands are pure'),
